@@ -1,7 +1,7 @@
 (* C18 - the lemmas behind Properties.v, stated over ALL histories (every state reachable from
    the initial one by any command list), and satisfiable Examples (non-vacuity). *)
 From Coq Require Import List Arith ZArith Bool String Lia.
-From C18 Require Import Gen Model ProofsBase ProofsStorage ProofsInv ProofsErr ProofsTrans.
+From C18 Require Import Gen Model ProofsBase ProofsStorage ProofsInv ProofsErr ProofsTrans ProofsFuel ProofsValues.
 Import ListNotations.
 Local Open Scope list_scope.
 
@@ -60,13 +60,16 @@ Qed.
 (* ---- the state machine *)
 Lemma state_machine : forall gc ops o j,
   tr (stof (reach gc ops) j) (stof (fst (step o (reach gc ops))) j) /\
-  (stof (fst (step o (reach gc ops))) j = None -> stof (reach gc ops) j <> None -> o = ODestroy j).
+  (stof (fst (step o (reach gc ops))) j = None -> stof (reach gc ops) j <> None -> o = ODestroy j \/ o = OClose j).
 Proof. intros. apply step_tr, reach_Inv. Qed.
 
 Lemma dead_is_absorbing : forall gc ops o j, stof (reach gc ops) j = Some Dead ->
   stof (fst (step o (reach gc ops))) j = Some Dead \/
-  (stof (fst (step o (reach gc ops))) j = None /\ o = ODestroy j).
+  (stof (fst (step o (reach gc ops))) j = None /\ (o = ODestroy j \/ o = OClose j)).
 Proof. intros. apply dead_absorbing; [apply reach_Inv|assumption]. Qed.
+
+Lemma end_unwinds : forall gc ops rets n, no_fuel_line (snd (step (OEnd rets n) (reach gc ops))).
+Proof. intros. apply end_has_fuel, reach_Inv. Qed.
 
 (* ---- storage *)
 Lemma storage_lifo : forall gc ops k c b c1, get k (cos (reach gc ops)) = Some c ->
@@ -84,6 +87,36 @@ Proof. intros. eapply typed_roundtrip; eauto. apply reach_Inv. Qed.
 
 Lemma push_rollback_all : forall gc ops k vs e s', co_push k vs (reach gc ops) = (CErr e, s') -> s' = reach gc ops.
 Proof. intros. eapply push_rollback; eauto. apply reach_Inv. Qed.
+
+(* ---- values cross a switch unmodified and in order *)
+Lemma resume_delivers_all : forall gc ops k c vals s1, let s := reach gc ops in
+  get k (cos s) = Some c -> co_resume k vals s = (COk, s1) ->
+  current s1 = Some k /\
+  exists c1, get k (cos s1) = Some c1 /\
+    co_pop k (map (@List.length Z) vals) s1 = (COk, vals, with_st s1 k c1 (storage c)).
+Proof. intros. eapply resume_delivers; eauto. apply reach_Inv. Qed.
+
+Lemma yield_delivers_all : forall gc ops k c vals s1, let s := reach gc ops in
+  current s = Some k -> get k (cos s) = Some c -> co_yield vals s = (COk, s1) ->
+  current s1 = co_prev c /\
+  exists c1, get k (cos s1) = Some c1 /\ co_st c1 = Suspended /\
+    co_pop k (map (@List.length Z) vals) s1 = (COk, vals, with_st s1 k c1 (storage c)).
+Proof. intros. eapply yield_delivers; eauto. apply reach_Inv. Qed.
+
+Lemma body_receives_arguments_all : forall gc ops k c vals s1, let s := reach gc ops in
+  get k (cos s) = Some c -> co_started c = false -> co_argsz c = map (@List.length Z) vals ->
+  co_resume k vals s = (COk, s1) ->
+  exists s2 c2, start_body k s1 = (COk, vals, s2) /\ get k (cos s2) = Some c2 /\ storage c2 = storage c /\
+                arrive k s1 = (s2, [mkLine (Some k) 0 "start" (map FV vals)]).
+Proof. intros. eapply body_receives_arguments; eauto. apply reach_Inv. Qed.
+
+Lemma body_return_delivers_all : forall gc ops k c rets s1, let s := reach gc ops in
+  current s = Some k -> get k (cos s) = Some c -> co_hasret c = true ->
+  finish_body k rets s = (COk, s1) ->
+  current s1 = co_prev c /\
+  exists c1, get k (cos s1) = Some c1 /\ co_st c1 = Dead /\
+    co_pop k (map (@List.length Z) rets) s1 = (COk, rets, with_st s1 k c1 (storage c)).
+Proof. intros. eapply body_return_delivers; eauto. apply reach_Inv. Qed.
 
 (* ---- invalid transitions: documented error, state unchanged *)
 Lemma invalid_transitions : forall gc ops, let s := reach gc ops in
@@ -186,7 +219,11 @@ Example ex_invalid :
   co_yield [] (reach true []) = (CErr MCO_INVALID_COROUTINE, reach true []) /\
   co_destroy 1 (reach false ex_ops) = (CErr MCO_INVALID_OPERATION, reach false ex_ops) /\
   benign (ODestroy 1) (reach false ex_ops).
-Proof. repeat split; try (vm_compute; reflexivity). left. vm_compute. reflexivity. Qed.
+Proof.
+  split; [vm_compute; reflexivity|]. split; [vm_compute; reflexivity|]. split; [vm_compute; reflexivity|].
+  split; [vm_compute; reflexivity|]. split; [vm_compute; reflexivity|]. split; [vm_compute; reflexivity|].
+  left. vm_compute. reflexivity.
+Qed.
 
 (* the witness of the defect: destroy of the running coroutine, then a legal destroy panics *)
 Example ex_defect :
@@ -198,8 +235,24 @@ Example ex_defect :
    mkLine None 0 "panic" [FS "invalid unregister pointer"]]%string.
 Proof. vm_compute. reflexivity. Qed.
 
+(* values across switches: the hypotheses are satisfiable (typed body 2 started with its arguments,
+   then it yields two values which the resumer pops) *)
+Example ex_values :
+  snd (run [OCreate 0 [8; 4; 1] true; OResume 0 [[1;0;0;0;0;0;0;0]%Z; [2;0;0;0]%Z; [3]%Z];
+            OYield [[9]%Z; [7;7;7;7;7;7;7;7]%Z]; OPop 0 [1; 8]; OResume 0 []; ORet [[5]%Z; [6;0;0;0;0;0;0;0]%Z];
+            OPop 0 [1; 8]; OStatus 0] (init true)) =
+  [mkLine None 0 "create" [FS "ok"];
+   mkLine (Some 0) 0 "start" [FV [1;0;0;0;0;0;0;0]%Z; FV [2;0;0;0]%Z; FV [3]%Z];
+   mkLine None 0 "resume" [FB true; FS ""];
+   mkLine None 0 "pop" [FB true; FS ""; FV [9]%Z; FV [7;7;7;7;7;7;7;7]%Z];
+   mkLine (Some 0) 0 "yield" [FB true; FS ""];
+   mkLine (Some 0) 0 "return" []; mkLine None 0 "resume" [FB true; FS ""];
+   mkLine None 0 "pop" [FB true; FS ""; FV [5]%Z; FV [6;0;0;0;0;0;0;0]%Z];
+   mkLine None 0 "status" [FS "dead"; FN 0; FB true; FB true]]%string.
+Proof. vm_compute. reflexivity. Qed.
+
 (* dead-is-absorbing has a dead coroutine to talk about; destroy removes it *)
 Example ex_dead : stof (reach true ex_ops) 4 = Some Dead /\
   stof (fst (step (OResume 4 []) (reach true ex_ops))) 4 = Some Dead /\
   stof (fst (step (ODestroy 4) (reach true ex_ops))) 4 = None.
-Proof. repeat split; vm_compute; reflexivity. Qed.
+Proof. split; [vm_compute; reflexivity|]. split; vm_compute; reflexivity. Qed.
